@@ -119,6 +119,33 @@ class Ref:
         self.mu = X @ self.mu
         self.V = X @ self.V @ X.T + Y
 
+    def condition(self, k, kind, value, phi=0.0):
+        """post-selected homodyne (quadrature x_phi = value) or heterodyne (outcome alpha = value) on mode k; the measured mode
+        is reset to vacuum (hbar = 2)"""
+        n = self.n
+        if kind == "homodyne":
+            c, s_ = np.cos(phi), np.sin(phi)
+            R = np.eye(2 * n)
+            R[k, k], R[k, k + n], R[k + n, k], R[k + n, k + n] = c, s_, -s_, c      # x_phi -> x
+            mu, V = R @ self.mu, R @ self.V @ R.T
+            rest = [i for i in range(2 * n) if i not in (k, k + n)]
+            Bx = V[rest, k]
+            Cxx = V[k, k]
+            mu_r = mu[rest] + Bx * (value - mu[k]) / Cxx
+            V_r = V[np.ix_(rest, rest)] - np.outer(Bx, Bx) / Cxx
+        else:
+            idx = [k, k + n]
+            rest = [i for i in range(2 * n) if i not in idx]
+            B = self.V[np.ix_(rest, idx)]
+            C = self.V[np.ix_(idx, idx)] + np.eye(2)
+            m = 2 * np.array([np.real(value), np.imag(value)])
+            K = B @ np.linalg.inv(C)
+            mu_r = self.mu[rest] + K @ (m - self.mu[idx])
+            V_r = self.V[np.ix_(rest, rest)] - K @ B.T
+        self.mu = np.zeros(2 * n); self.V = np.eye(2 * n)
+        self.mu[rest] = mu_r
+        self.V[np.ix_(rest, rest)] = V_r
+
     def prepare(self, mu2, V2, k):
         """mode k replaced by a single-mode Gaussian state (x, p means / 2x2 covariance), uncorrelated with the rest"""
         n = self.n
@@ -202,6 +229,10 @@ def apply_case(case, q, ref):
         ops.LossChannel(p[0]) | q[modes[0]]; ref.loss(p[0], 0.0, modes[0])
     elif kind == "thermal_loss":
         ops.ThermalLossChannel(*p) | q[modes[0]]; ref.loss(p[0], p[1], modes[0])
+    elif kind == "homodyne_select":
+        ops.MeasureHomodyne(p[0], select=p[1]) | q[modes[0]]; ref.condition(modes[0], "homodyne", p[1], p[0])
+    elif kind == "heterodyne_select":
+        ops.MeasureHeterodyne(select=complex(p[0], p[1])) | q[modes[0]]; ref.condition(modes[0], "heterodyne", complex(p[0], p[1]))
     elif kind == "prep":
         mk, mu2, V2 = PREPS[name]
         mk() | q[modes[0]]; ref.prepare(mu2, V2, modes[0])
@@ -229,7 +260,7 @@ def run_case(args):
     deleted = bool(args[4]) if len(args) > 4 else False
     out, ev = [], 0
     label = label_of(case, n, mixed) + (" after Del | q[0] (indices shifted by one)" if deleted else "")
-    backends = ("gaussian", "bosonic") if case[0] == "thermal_loss" else ("gaussian", "bosonic", "fock")
+    backends = ("gaussian", "bosonic") if case[0] in ("thermal_loss", "heterodyne_select") else ("gaussian", "bosonic", "fock")
     off = 1 if deleted else 0
     for backend in backends:
         ref = Ref(n)
@@ -318,6 +349,34 @@ def check_fock_top_level(out):
     return n_ev
 
 
+def check_cat_states(out):
+    """C01, non-Gaussian preparations: Catstate(a, phi, p) for even, odd AND fractional parities p, followed by a rotation and a
+    beamsplitter, on the fock simulator and on the bosonic simulator in both of its representations: same first and second
+    quadrature moments and photon numbers of both modes (phase sensitive: <a> != 0 for fractional p)"""
+    n_ev = 0
+    for a, phi, p_ in ((0.8, 0.4, 0.0), (0.8, 0.4, 1.0), (0.8, 0.4, 0.5), (0.6, -0.7, 0.3), (0.7, 1.1, 1.75)):
+        ref = None
+        for backend, rep in (("fock", None), ("bosonic", "complex"), ("bosonic", "real")):
+            n_ev += 1
+            prog = sf.Program(2)
+            with prog.context as q:
+                (ops.Catstate(a, phi, p_) if rep is None else ops.Catstate(a, phi, p_, representation=rep)) | q[0]
+                ops.Rgate(0.3) | q[0]
+                ops.BSgate(0.7, 0.4) | (q[0], q[1])
+            kw = {"cutoff_dim": 14} if backend == "fock" else {}
+            try:
+                st = sf.Engine(backend, backend_options=kw).run(prog).state
+                obs = np.array([st.quad_expectation(m, ph) for m in (0, 1) for ph in (0.0, 0.8, np.pi / 2)] + [[st.mean_photon(m)[0], 0.0] for m in (0, 1)], dtype=float)
+            except Exception as e:
+                out.append(f"Catstate({a}, {phi}, {p_}) on {backend}{'/' + rep if rep else ''}: raised {type(e).__name__}: {str(e)[:120]}")
+                continue
+            if ref is None:
+                ref = obs
+            elif not np.allclose(obs, ref, atol=5e-3):
+                out.append(f"Catstate({a}, {phi}, p={p_}); Rgate; BSgate on bosonic/{rep}: quadrature moments / photon numbers {np.round(obs[:, 0], 4).tolist()} differ from the fock simulator {np.round(ref[:, 0], 4).tolist()}")
+    return n_ev
+
+
 def cases():
     C = []
     for n in (2, 3):
@@ -343,6 +402,9 @@ def cases():
                 C.append((("thermal_loss", "ThermalLossChannel", (0.6, 0.4), (k,), False), n, mixed))
                 for pname in PREPS:
                     C.append((("prep", pname, (), (k,), False), n, mixed))
+                # post-selected measurements of a displaced mode that is correlated with the others
+                C.append((("homodyne_select", "MeasureHomodyne", (0.4, 0.35), (k,), False), n, mixed))
+                C.append((("heterodyne_select", "MeasureHeterodyne", (0.2, -0.3), (k,), False), n, mixed))
     return C
 
 
@@ -354,6 +416,11 @@ if __name__ == "__main__":
         if PROP in ("C01", "C05", "all"):
             # every operation once more on a register whose first mode was deleted (2 live modes, pure)
             todo += [(c, n, mixed, PROP, True) for (c, n, mixed) in cases() if n == 2 and not mixed and not c[4]]
+        if PROP in ("C01", "all"):
+            extra = []
+            EVAL[0] += check_cat_states(extra)
+            for msg in extra:
+                bad(msg)
         if PROP in ("C07", "all"):
             extra = []
             EVAL[0] += check_fock_operator_invariants(extra)
